@@ -74,6 +74,16 @@ class SLower(Val):
 
 
 @dataclass
+class SSeqStr(Val):
+    """a string built character by character (io.StringIO buffer contents): a z3 Seq Int of code points"""
+    seq: Any
+
+
+SEQID = z3.Function("SEQID", z3.SeqSort(z3.IntSort()), z3.IntSort())      # interning of built strings stored in lists
+SEQ_OF = z3.Function("SEQ_OF", z3.IntSort(), z3.SeqSort(z3.IntSort()))
+
+
+@dataclass
 class SStr(Val):
     t: Any
 
@@ -134,7 +144,7 @@ def sid(path, s):
 
 
 def elem_sort(kind: str):
-    if kind in ("ref", "int", "char", "str"):
+    if kind in ("ref", "int", "char", "str", "seqstr") or kind.startswith("dict:"):
         return z3.IntSort()
     if kind.startswith("slice"):
         return PairSort()
